@@ -6,6 +6,6 @@ From Coq Require Import Extraction ExtrOcamlBasic.
 From GI Require Import Gen.LockedFileConsts LockedFile.LockedFile.
 Extraction Language OCaml.
 Extraction "extracted/lockedfile/model.ml" Byte.of_N Byte.to_N
-  prog_of_call client_prog run_seq run_body fault_at no_faults os_with fresh_fd
+  prog_of_call client_prog write_body read_body run_seq run_body fault_at no_faults os_with fresh_fd
   lock_mode_of_flags lock_arg_of_flags strip accmode call_spec
   init_state exec run.
